@@ -36,7 +36,9 @@ theorem ctx_handles_unique {env : Env} {st : St} (hwf : WF env st) (ops : List O
   ⟨(wf_run hwf ops).nodup, (wf_run hwf ops).not_descr⟩
 
 /-- a state that was associated before an operation still exists after it, and if it is no longer associated it is
-`Dis`, its unbinding version is the MdibVersion of that commit (the old version + 1) and its end time is set.
+`Dis`, its unbinding version is the MdibVersion of that commit (the old version + 1) and its end time is the time of
+that operation (the clock value the operation read; in particular it is set – whatever binding attributes the state
+carried before, e.g. a client-supplied BindingEndTime of a state that was proposed as `Pre` and associated later).
 (`ops` may contain `otherCommit`s; "old version" is the version at the moment the operation owns the transaction lock,
 see the header and `version_reads_inside_transaction`.) -/
 theorem unbind_marked {env : Env} {st : St} (hwf : WF env st) (ops : List Op) (op : Op) (a : CState)
@@ -44,7 +46,8 @@ theorem unbind_marked {env : Env} {st : St} (hwf : WF env st) (ops : List Op) (o
     ∃ b ∈ (step env (run env st ops) op).1.tab, b.h = a.h ∧
       (b.assoc ≠ .assoc →
         (step env (run env st ops) op).1.ver = (run env st ops).ver + 1 ∧
-        b.assoc = .dis ∧ b.unbindV = some (step env (run env st ops) op).1.ver ∧ b.unbindT ≠ none) := by
+        b.assoc = .dis ∧ b.unbindV = some (step env (run env st ops) op).1.ver ∧
+        b.unbindT = some (run env st ops).clock) := by
   have wf := wf_run hwf ops
   have ok := step_ok wf op
   obtain ⟨b, hb, hab⟩ := ok.post.keep a ha
@@ -57,12 +60,12 @@ theorem unbind_marked {env : Env} {st : St} (hwf : WF env st) (ops : List Op) (o
   · exact ⟨hv, hm⟩
 
 /-- a state that is associated after an operation and was not before (or did not exist) has the MdibVersion of that
-commit (the old version + 1) as binding version and its start time set -/
+commit (the old version + 1) as binding version and the time of that operation as start time -/
 theorem bind_marked {env : Env} {st : St} (hwf : WF env st) (ops : List Op) (op : Op) (b : CState)
     (hb : b ∈ (step env (run env st ops) op).1.tab) (hba : b.assoc = .assoc)
     (hnew : ∀ a ∈ (run env st ops).tab, a.h = b.h → a.assoc ≠ .assoc) :
     (step env (run env st ops) op).1.ver = (run env st ops).ver + 1 ∧
-    b.bindV = some (step env (run env st ops) op).1.ver ∧ b.bindT ≠ none := by
+    b.bindV = some (step env (run env st ops) op).1.ver ∧ b.bindT = some (run env st ops).clock := by
   have wf := wf_run hwf ops
   have ok := step_ok wf op
   have hm := ok.post.bnd b hb hba hnew
@@ -189,6 +192,17 @@ example : Generated.ContextLocks.versionReads ≠ [] ∧ ∀ r ∈ Generated.Con
 example : ((run env0 st0 [.otherCommit, .setContextState [prop 1 1 .assoc], .otherCommit]).tab.map
     fun s => (s.h, s.bindV, s.unbindV)) = [(100, some 3, some 7), (101, some 1, some 3), (1000, some 7, none)] ∧
     (run env0 st0 [.otherCommit, .setContextState [prop 1 1 .assoc], .otherCommit]).ver = 8 := by decide
+
+def propEnd : CState :=
+  { h := 3, dh := 3, dv := 0, sv := 0, body := 9, assoc := .pre, bindV := none, unbindV := none, bindT := none, unbindT := some 260 }
+
+/-- client-supplied binding attributes: a new `Pre` state keeps the proposed end time (260), is associated by an update
+(binding version 6, start time 101) and replaced by a new associated state: unbinding version 7 and end time 102 -/
+example : ((run env0 st0 [.setContextState [propEnd], .setContextState [prop 1000 3 .assoc],
+      .setContextState [prop 3 3 .assoc]]).tab.filter (·.dh == 3)).map
+      (fun s => ((s.h, s.assoc), (s.bindV, s.unbindV), (s.bindT, s.unbindT))) =
+    [((1000, .dis), (some 7, some 8), (some 101, some 102)), ((1001, .assoc), (some 8, none), (some 102, none))] := by
+  decide
 
 /-- `unbind_marked` is not vacuous: state 100 is associated, the second operation disassociates it -/
 example : ∃ a ∈ (run env0 st0 (ops0.take 1)).tab, a.assoc = .assoc ∧
